@@ -165,4 +165,15 @@ CHECKS = {
         "note": STD_NOTE + " Environment model: a read_exact that fails delivers nothing the caller may use (std contract).",
         "technique": "Coq proof (error-or-same by induction over programs, invariant preservation) + exhaustive single-fault injection correspondence",
     },
+    "C18": {
+        "text": "Coq theorems with trunc n f = the file cut after n bytes, for EVERY file f and cut n: C18_views (a byte range that exists "
+                "in the prefix is the same buffer in the whole file), C18_open (the prefix opens => the whole file opens with the identical "
+                "handle), C18_slice_queries (all 15 slice-parser queries: an Ok answer on the prefix is the answer on the whole file; table "
+                "entries identical), C18_stream (EVERY stream-parser method -- any program that loads before it gets, open included). Appending "
+                "bytes is the same statement read from the shorter file. Tie + metamorphic oracle on the implementation: every prefix length "
+                "of generated files (tables placed early) and files with random suffixes, slice and stream: each answer on the prefix is an "
+                "error or equals the answer on the whole file.",
+        "note": STD_NOTE + " AXIOM: the C18 theorems depend on FunctionalExtensionality.functional_extensionality_dep (Coq standard library), used once (sub_trunc / view_nil) to identify a view of the truncated file with the same view of the whole file; it is the only axiom in the development and is allow-listed for C18 only.",
+        "technique": "Coq proof (one view lemma via functional extensionality + monotone bounds checks, per-query and generic-over-programs) + correspondence + metamorphic prefix oracle",
+    },
 }
